@@ -1344,6 +1344,11 @@ where
             let mut dropped_any = false;
 
             loop {
+                // Take the time per report, not once per round: an earlier report of
+                // this round may have taken tens of seconds (unresponsive subscriber),
+                // and `now` becomes the subscription's last-report timestamp.
+                let now = Instant::now();
+
                 let Some(mut rctx) = self.state.subscriptions.report(
                     now,
                     event_numbers_watermark,
@@ -1429,6 +1434,11 @@ where
         if let Some(mut tx) = self.buffers.get().await {
             // Always safe as `IMBuffer` is defined to be `MAX_EXCHANGE_RX_BUF_SIZE`, which is bigger than `MAX_EXCHANGE_TX_BUF_SIZE`
             unwrap!(tx.resize_default(MAX_EXCHANGE_TX_BUF_SIZE));
+
+            // The min/max intervals count from the moment the report actually goes
+            // out, not from the moment we decided to report: establishing the session
+            // and waiting for a buffer may have taken long.
+            rctx.stamp(Instant::now());
 
             let (primed, sent) = self
                 .report_data(rctx, &mut tx, &mut exchange, false)
